@@ -19,8 +19,12 @@ package reader
 // Registering the routes installs no middleware (frame only, by reading).
 //@ func performV1APIRouting
 //@   modifies nothing
-//@ func httpStart
+// The listener of the stand-alone reader serves the router it is given and nothing else (a
+// nil handler would serve http.DefaultServeMux with the handlers imported packages put there).
+//@ func httpStart [C20]
+//@   flag checks=-panic,-assert
 //@   modifies nothing
+//@   at http.Serve$ the-listener-serves-the-router-and-nothing-else: typeis(arg1, "*mux.Router") && unbox(arg1, "*mux.Router") == server
 //@ func configureAsHTTPServer [C20]
 //@   flag checks=-index,-assert
 //@   requires !isnil(acc) && acc.g_mw == 0 && !acc.g_auth
